@@ -3,6 +3,7 @@ C04, observer side: lemmas on the duplicate-join filter and on what a listener o
 join / leave event was published to the room (`Model/HubView.lean`).
 -/
 import SigModel.Model.HubView
+import SigModel.Lemmas.HubFields
 
 namespace SigModel.Hub
 
@@ -90,7 +91,7 @@ theorem sendTo_self (a : Acc) (l : Nat) (m : Msg) (x : Sess) (hx : a.h.sess l = 
     (∃ y, (sendTo a l m).h.sess l = some y ∧ y.seenJoin = (filterMessage x m).1.seenJoin ∧ y.kind = x.kind ∧
         y.room = x.room ∧ y.backend = x.backend) ∧
     (∀ l', l' ≠ l → (sendTo a l m).h.sess l' = a.h.sess l') ∧
-    (sendTo a l m).h.rooms = a.h.rooms ∧ (sendTo a l m).h.roomL = a.h.roomL := by
+    (sendTo a l m).h.rooms = a.h.rooms ∧ (sendTo a l m).h.roomL = a.h.roomL ∧ (sendTo a l m).h.sessL = a.h.sessL := by
   have ff := filter_frame x m
   have ht : target a.h l = l := by simp [target, hx, hk]
   unfold sendTo
@@ -129,14 +130,15 @@ theorem procClient_event (a : Acc) (l : Nat) (m : Msg) (hm : (∃ ss, m = .join 
     Listens (procClient a l (.msg m)).h l ∧
     (∀ t, t ∈ seenOf (procClient a l (.msg m)).h l ↔ viewAfter m (seenOf a.h l) t) ∧
     (∀ l', l' ≠ l → (procClient a l (.msg m)).h.sess l' = a.h.sess l') ∧
-    (procClient a l (.msg m)).h.rooms = a.h.rooms ∧ (procClient a l (.msg m)).h.roomL = a.h.roomL := by
+    (procClient a l (.msg m)).h.rooms = a.h.rooms ∧ (procClient a l (.msg m)).h.roomL = a.h.roomL ∧
+    (procClient a l (.msg m)).h.sessL = a.h.sessL := by
   obtain ⟨x, hx, hk, hr⟩ := hl
   have hp : passesAsyncFilter a.h l x m = true := by
     rcases hm with ⟨ss, rfl⟩ | ⟨ss, rfl⟩ <;> simp [passesAsyncFilter, hr]
-  obtain ⟨⟨y, hy, hs, hyk, hyr, _⟩, ho, hrm, hrl⟩ := sendTo_self a l m x hx hk
+  obtain ⟨⟨y, hy, hs, hyk, hyr, _⟩, ho, hrm, hrl, hsl⟩ := sendTo_self a l m x hx hk
   have e : procClient a l (.msg m) = sendTo a l m := by simp [procClient, hx, hp]
   rw [e]
-  refine ⟨⟨y, hy, hyk ▸ hk, hyr ▸ hr⟩, ?_, ho, hrm, hrl⟩
+  refine ⟨⟨y, hy, hyk ▸ hk, hyr ▸ hr⟩, ?_, ho, hrm, hrl, hsl⟩
   intro t
   simp only [seenOf, hy, hx, hs]
   rcases hm with ⟨ss, rfl⟩ | ⟨ss, rfl⟩
@@ -150,21 +152,22 @@ theorem foldl_event (m : Msg) (hm : (∃ ss, m = .join ss) ∨ (∃ ss, m = .lea
     ∀ (a : Acc), ls.Nodup → (∀ l ∈ ls, Listens a.h l) →
     let a' := ls.foldl (fun a l => procClient a l (.msg m)) a
     (∀ l ∈ ls, Listens a'.h l ∧ ∀ t, t ∈ seenOf a'.h l ↔ viewAfter m (seenOf a.h l) t) ∧
-    (∀ l', l' ∉ ls → a'.h.sess l' = a.h.sess l') ∧ a'.h.rooms = a.h.rooms ∧ a'.h.roomL = a.h.roomL := by
+    (∀ l', l' ∉ ls → a'.h.sess l' = a.h.sess l') ∧ a'.h.rooms = a.h.rooms ∧ a'.h.roomL = a.h.roomL ∧
+    a'.h.sessL = a.h.sessL := by
   induction ls with
   | nil => intro a _ _; simp
   | cons l ls ih =>
     intro a hn hl
     have hn' := List.nodup_cons.mp hn
-    obtain ⟨h1, h2, h3, h4, h5⟩ := procClient_event a l m hm (hl l (List.mem_cons_self))
+    obtain ⟨h1, h2, h3, h4, h5, h6⟩ := procClient_event a l m hm (hl l (List.mem_cons_self))
     have hl' : ∀ k ∈ ls, Listens (procClient a l (.msg m)).h k := by
       intro k hk
       have hne : k ≠ l := fun e => hn'.1 (e ▸ hk)
       obtain ⟨x, hx, r⟩ := hl k (List.mem_cons_of_mem _ hk)
       exact ⟨x, (h3 k hne).trans hx, r⟩
-    obtain ⟨i1, i2, i3, i4⟩ := ih (procClient a l (.msg m)) hn'.2 hl'
+    obtain ⟨i1, i2, i3, i4, i5⟩ := ih (procClient a l (.msg m)) hn'.2 hl'
     simp only [List.foldl_cons]
-    refine ⟨?_, ?_, i3.trans h4, i4.trans h5⟩
+    refine ⟨?_, ?_, i3.trans h4, i4.trans h5, i5.trans h6⟩
     · intro k hk
       rcases List.mem_cons.mp hk with rfl | hk
       · -- the head: untouched by the rest of the fold
@@ -189,8 +192,217 @@ theorem pubRoom_event (a : Acc) (b : Nat) (r : String) (m : Msg) (hm : (∃ ss, 
     (hn : (a.h.roomL b r).Nodup) (hl : ∀ l ∈ a.h.roomL b r, Listens a.h l) :
     let a' := pubRoom a b r (.msg m)
     (∀ l ∈ a.h.roomL b r, ∀ t, t ∈ seenOf a'.h l ↔ viewAfter m (seenOf a.h l) t) ∧
-    (∀ l', l' ∉ a.h.roomL b r → a'.h.sess l' = a.h.sess l') ∧ a'.h.rooms = a.h.rooms ∧ a'.h.roomL = a.h.roomL := by
-  obtain ⟨h1, h2, h3, h4⟩ := foldl_event m hm (a.h.roomL b r) a hn hl
-  exact ⟨fun l hl' => (h1 l hl').2, h2, h3, h4⟩
+    (∀ l', l' ∉ a.h.roomL b r → a'.h.sess l' = a.h.sess l') ∧ a'.h.rooms = a.h.rooms ∧ a'.h.roomL = a.h.roomL ∧
+    a'.h.sessL = a.h.sessL ∧ (∀ l ∈ a.h.roomL b r, Listens a'.h l) := by
+  obtain ⟨h1, h2, h3, h4, h5⟩ := foldl_event m hm (a.h.roomL b r) a hn hl
+  exact ⟨fun l hl' => (h1 l hl').2, h2, h3, h4, h5, fun l hl' => (h1 l hl').1⟩
+
+end SigModel.Hub
+
+namespace SigModel.Hub
+
+
+/-- **Leaving keeps the observers right.** If the listeners of room `(b, r)` all hold the room's member set, then after
+`Room.RemoveSession` of an ordinary member `s` (table update + publication of `leave [s]`) they all hold the new
+member set.  (`leaveRoom` has taken `s` off the listener list before, so `s` itself is not among them.) -/
+theorem roomRemoveSession_views (a : Acc) (b : Nat) (r : String) (s : Nat) (rm : Room)
+    (hrm : a.h.rooms b r = some rm) (hs : s ∈ rm.members)
+    (hn : (a.h.roomL b r).Nodup) (hl : ∀ l ∈ a.h.roomL b r, Listens a.h l)
+    (hv : ∀ l ∈ a.h.roomL b r, ∀ t, t ∈ seenOf a.h l ↔ t ∈ rm.members) :
+    ∀ l ∈ a.h.roomL b r, ∀ t, t ∈ seenOf (roomRemoveSession a b r s .client).h l ↔ t ∈ removeL rm.members s := by
+  intro l hl' t
+  have hc : rm.members.contains s = true := by simpa using hs
+  -- the table update changes the room record only
+  have key : ∀ (h1 : Hub), h1.sess = a.h.sess → h1.roomL = a.h.roomL →
+      (t ∈ seenOf (pubRoom { a with h := h1 } b r (.msg (.leave [s]))).h l ↔ t ∈ removeL rm.members s) := by
+    intro h1 e1 e2
+    have hn1 : (h1.roomL b r).Nodup := by rw [e2]; exact hn
+    have hl1 : ∀ k ∈ h1.roomL b r, Listens h1 k := by
+      intro k hk; rw [e2] at hk
+      obtain ⟨x, hx, r'⟩ := hl k hk
+      exact ⟨x, by rw [e1]; exact hx, r'⟩
+    obtain ⟨p1, -⟩ := pubRoom_event { a with h := h1 } b r (.leave [s]) (Or.inr ⟨[s], rfl⟩) hn1 hl1
+    have := p1 l (by rw [e2]; exact hl') t
+    rw [this]
+    simp only [viewAfter, seenOf, e1, List.mem_singleton]
+    have := hv l hl' t
+    simp only [seenOf] at this
+    rw [this, mem_removeL]
+  unfold roomRemoveSession
+  simp only [hrm, hc, Bool.not_true, Bool.false_eq_true, ↓reduceIte]
+  have hk : (Kind.client = Kind.internal) = False := by simp
+  simp only [hk, ↓reduceIte]
+  split
+  · exact key _ rfl rfl
+  · exact key _ rfl rfl
+
+end SigModel.Hub
+
+namespace SigModel.Hub
+
+/-- **Joining keeps the observers right, and gives the joiner the whole set.**  `Room.AddSession` for an ordinary
+session `s` that is new to room `(b, r)`, from a state in which `s` is already on the room's listener list with an
+empty view (`joinTables` did that) and the other listeners hold the member set: afterwards every listener, the
+joiner included, holds the new member set (table update, `join [s]` to the room, the list of the other members
+to `s` on its session subject). -/
+theorem roomAddSession_views (a : Acc) (b : Nat) (r : String) (s : Nat) (su : String)
+    (hnew : s ∉ ((a.h.rooms b r).getD {}).members)
+    (hn : (a.h.roomL b r).Nodup) (hl : ∀ l ∈ a.h.roomL b r, Listens a.h l)
+    (hs : s ∈ a.h.roomL b r) (hs0 : seenOf a.h s = []) (hsl : a.h.sessL s = true)
+    (hv : ∀ l ∈ a.h.roomL b r, l ≠ s → ∀ t, t ∈ seenOf a.h l ↔ t ∈ ((a.h.rooms b r).getD {}).members) :
+    ∀ l ∈ a.h.roomL b r, ∀ t, t ∈ seenOf (roomAddSession a b r s .client su).h l ↔
+      t ∈ ((a.h.rooms b r).getD {}).members ∨ t = s := by
+  intro l hl' t
+  generalize hold : ((a.h.rooms b r).getD {}).members = old at *
+  have hc : old.contains s = false := by simpa using hnew
+  -- 1. the table update
+  let a1 : Acc := { a with h := addMember a.h b r s su }
+  have e1s : a1.h.sess = a.h.sess := rfl
+  have e1l : a1.h.roomL = a.h.roomL := rfl
+  have e1m : ∃ rm1, a1.h.rooms b r = some rm1 ∧ rm1.members = old ++ [s] := by
+    refine ⟨newRoom a.h b r s su, by simp [a1, addMember, setRoom], ?_⟩
+    simp only [newRoom, hold, hc, Bool.false_eq_true, ↓reduceIte]
+  -- 2. `join [s]` to the room
+  obtain ⟨p1, p2, p3, p4, p5, p6⟩ := pubRoom_event a1 b r (.join [s]) (Or.inl ⟨[s], rfl⟩) hn hl
+  let a2 := pubRoom a1 b r (.msg (.join [s]))
+  have v2 : ∀ k ∈ a.h.roomL b r, ∀ u, u ∈ seenOf a2.h k ↔ (u ∈ seenOf a.h k ∨ u = s) := by
+    intro k hk u
+    have := p1 k hk u
+    simp only [viewAfter, List.mem_singleton] at this
+    exact this
+  -- 3. the list of the others to the joiner
+  obtain ⟨rm1, hrm1, hm1⟩ := e1m
+  have hrm2 : a2.h.rooms b r = some rm1 := by show (pubRoom a1 b r _).h.rooms b r = _; rw [p3]; exact hrm1
+  have hothers : removeL rm1.members s = old := by
+    rw [hm1]; simp only [removeL, List.filter_append]
+    have : old.filter (· ≠ s) = old := by
+      apply List.filter_eq_self.mpr
+      intro u hu
+      have : u ≠ s := fun e => hnew (e ▸ hu)
+      simp [this]
+    rw [this]; simp
+  have e3 : roomAddSession a b r s .client su = notifySessionJoined a2 b r s := by
+    simp only [roomAddSession, hold, hc, Bool.false_eq_true, ↓reduceIte, reduceCtorEq]
+    rfl
+  rw [e3]
+  unfold notifySessionJoined
+  simp only [hrm2, hothers]
+  split
+  · -- nobody else in the room
+    rename_i hnil
+    rw [v2 l hl' t]
+    by_cases hls : l = s
+    · subst hls; simp [hs0, hnil]
+    · rw [hv l hl' hls t]
+  · -- `procSession` hands the list to `s`
+    have hL2 : Listens a2.h s := p6 s hs
+    obtain ⟨x2, hx2, hk2, hr2⟩ := hL2
+    have hsl2 : a2.h.sessL s = true := by show (pubRoom a1 b r _).h.sessL s = _; rw [p5]; exact hsl
+    have e4 : procSession a2 s (.msg (.join old)) = procClient a2 s (.msg (.join old)) := by
+      simp [procSession, hsl2, hx2, hk2]
+    rw [e4]
+    obtain ⟨-, q2, q3, -⟩ := procClient_event a2 s (.join old) (Or.inl ⟨old, rfl⟩) ⟨x2, hx2, hk2, hr2⟩
+    by_cases hls : l = s
+    · subst hls
+      rw [q2 t]
+      simp only [viewAfter]
+      rw [v2 l hl' t, hs0]
+      simp [or_comm]
+    · simp only [seenOf, q3 l hls]
+      have := v2 l hl' t
+      simp only [seenOf] at this
+      rw [this]
+      have := hv l hl' hls t
+      simp only [seenOf] at this
+      rw [this]
+
+end SigModel.Hub
+
+namespace SigModel.Hub
+
+theorem joinTables_frame (h : Hub) (s : Nat) (x : Sess) (r rsid : String) (perms : Option (List String)) :
+    (∃ y, (joinTables h s x r rsid perms).sess s = some y ∧ y.kind = x.kind ∧ y.room = some r ∧ y.seenJoin = [] ∧
+        y.backend = x.backend) ∧
+    (∀ k, k ≠ s → (joinTables h s x r rsid perms).sess k = h.sess k) ∧
+    (joinTables h s x r rsid perms).rooms = h.rooms ∧
+    (joinTables h s x r rsid perms).roomL x.backend r = removeL (h.roomL x.backend r) s ++ [s] ∧
+    (joinTables h s x r rsid perms).sessL = h.sessL := by
+  unfold joinTables
+  refine ⟨⟨{ x with roomSess := rsid, room := some r, seenJoin := [],
+                     perms := match perms with | some p => some p | none => x.perms },
+    by simp only [setSess, ↓reduceIte] <;> rfl, rfl, rfl, rfl, rfl⟩, ?_, ?_, ?_, ?_⟩
+  · intro k hk
+    simp only [setSess, hk, ↓reduceIte]
+    split <;> simp [rsSet_sess, setRoomL]
+  · simp only [setSess]
+    split <;> simp [rsSet_rooms, setRoomL]
+  · simp only [setSess]
+    split <;> simp [rsSet_roomL, setRoomL]
+  · simp only [setSess]
+    split <;> simp [rsSet_sessL, setRoomL]
+
+end SigModel.Hub
+
+namespace SigModel.Hub
+
+/-- **A join from outside any room.**  `Hub.processJoinRoom` after a positive backend answer, for an ordinary session `s`
+that is in no room: if the listeners of the target room are distinct listening sessions that hold its member set
+(and `s` has its session-subject listener), then afterwards every one of them *and the joiner* hold the new
+member set. -/
+theorem doJoin_views (a : Acc) (s : Nat) (x : Sess) (r rsid : String) (perms : Option (List String)) (su : String)
+    (hx : a.h.sess s = some x) (hk : x.kind = .client) (hr : x.room = none)
+    (hnew : s ∉ ((a.h.rooms x.backend r).getD {}).members)
+    (hn : (a.h.roomL x.backend r).Nodup) (hl : ∀ l ∈ a.h.roomL x.backend r, Listens a.h l)
+    (hsl : a.h.sessL s = true)
+    (hv : ∀ l ∈ a.h.roomL x.backend r, l ≠ s → ∀ t, t ∈ seenOf a.h l ↔ t ∈ ((a.h.rooms x.backend r).getD {}).members) :
+    ∀ l, (l ∈ a.h.roomL x.backend r ∨ l = s) → ∀ t, t ∈ seenOf (doJoin a s r rsid perms su).h l ↔
+      t ∈ ((a.h.rooms x.backend r).getD {}).members ∨ t = s := by
+  obtain ⟨⟨y, hy, hyk, hyr, hys, hyb⟩, j2, j3, j4, j5⟩ := joinTables_frame a.h s x r rsid perms
+  have hkv : y.kind ≠ .virtual := by rw [hyk, hk]; simp
+  let aJ : Acc := { a with h := joinTables a.h s x r rsid perms }
+  obtain ⟨⟨z, hz, hzs, hzk, hzr, hzb⟩, s2, s3, s4, s5⟩ := sendTo_self aJ s (.room r) y hy hkv
+  let a5 := sendTo aJ s (.room r)
+  have e : doJoin a s r rsid perms su = roomAddSession a5 x.backend r s .client su := by
+    simp only [doJoin, leaveRoom, hx, hr]
+    simp only [hx, hk]
+    rfl
+  have hz0 : z.seenJoin = [] := by rw [hzs]; simpa [filterMessage] using hys
+  have hsess : ∀ k, k ≠ s → a5.h.sess k = a.h.sess k := fun k hk' => (s2 k hk').trans (j2 k hk')
+  have hrooms : a5.h.rooms = a.h.rooms := s3.trans j3
+  have hroomL : a5.h.roomL x.backend r = removeL (a.h.roomL x.backend r) s ++ [s] := by
+    show (sendTo aJ s (.room r)).h.roomL x.backend r = _
+    rw [s4]; exact j4
+  have hmem : ∀ k, k ∈ a5.h.roomL x.backend r ↔ (k ∈ a.h.roomL x.backend r ∨ k = s) := by
+    intro k; rw [hroomL]; simp only [List.mem_append, mem_removeL, List.mem_singleton]
+    by_cases hks : k = s <;> simp [hks]
+  rw [e]
+  intro l hl' t
+  have := roomAddSession_views a5 x.backend r s su (by rw [hrooms]; exact hnew)
+    (by
+      rw [hroomL]
+      refine List.nodup_append.mpr ⟨hn.filter _, by simp, ?_⟩
+      intro u hu v hv'; simp only [List.mem_singleton] at hv'; subst hv'
+      exact (mem_removeL.mp hu).2)
+    (by
+      intro k hk'
+      rcases (hmem k).mp hk' with h1 | h1
+      · by_cases hks : k = s
+        · subst hks; exact ⟨z, hz, hzk ▸ hkv, by rw [hzr, hyr]; rfl⟩
+        · obtain ⟨w, hw, r'⟩ := hl k h1; exact ⟨w, (hsess k hks).trans hw, r'⟩
+      · subst h1; exact ⟨z, hz, hzk ▸ hkv, by rw [hzr, hyr]; rfl⟩)
+    ((hmem s).mpr (Or.inr rfl))
+    (by simp only [seenOf]; rw [show a5.h.sess s = some z from hz]; exact hz0)
+    (by show (sendTo aJ s (.room r)).h.sessL s = true; rw [s5]; show (joinTables a.h s x r rsid perms).sessL s = true; rw [j5]; exact hsl)
+    (by
+      intro k hk' hks u
+      rw [hrooms]
+      rcases (hmem k).mp hk' with h1 | h1
+      · have := hv k h1 hks u
+        simp only [seenOf, hsess k hks] at this ⊢
+        exact this
+      · exact absurd h1 hks)
+    l ((hmem l).mpr hl') t
+  rw [hrooms] at this
+  exact this
 
 end SigModel.Hub
